@@ -245,7 +245,8 @@ _TPROPS = {
     "C12": ["TransProps.server_bits_in_range", "TransProps.client_bits_in_range"],
     "C16": ["TransProps.gate_text", "TransProps.gate_binary_never", "TransProps.gate_off_never"],
     "C17": ["TransProps.window_is_suffix", "TransProps.disabled_window_stays_empty"],
-    "C01": ["TransProps.frame_delivered_end_to_end"],
+    "C01": ["TransProps.frame_delivered_end_to_end", "TransProps.frame_delivered_compressed_end_to_end"],
+    "C02": ["TransProps.frame_delivered_compressed_end_to_end"],
 }
 for _p, _ths in _TPROPS.items():
     _m, _t = _TRANS[_p]
